@@ -38,16 +38,54 @@ static void mode_fold(void) {
         else if (a == 0 && r > 1) { snprintf(obs, sizeof obs, "iswfc(U+%lX) announces no mapping, towfc_s emitted %d characters", c, r); vio("C17", "announced-length-differs-from-emitted", plane(c), obs, c); }
         /* wcsfc_s on the one-character string, dest sized from the announcement (+ terminator) */
         if (c) {
-            size_t need = (size_t)(a > 0 ? a : 1) + 1; if (need < 2) need = 2;
+            size_t need = (size_t)(a > 0 ? a : 1) + 1; if (need < 5) need = 5;     /* 5 is the documented minimum of wcsfc_s */
             wchar_t *d2 = place_end(1, need * sizeof(wchar_t)); wchar_t src[2] = {(wchar_t)c, 0}; rsize_t l = 99; errno_t rc = -999;
             for (size_t k = 0; k < need; k++) d2[k] = 0x7878;
             FENCED(rc = _wcsfc_s_chk(d2, need, src, &l, need * sizeof(wchar_t)));
             if (g_fence.faulted) { n_faults++; snprintf(obs, sizeof obs, "wcsfc_s(U+%lX) %s fault with dest sized from iswfc (%zu elements)", c, g_fence.is_write ? "WRITE" : "READ", need); if (g_fence.is_write) vio("C01", "wcsfc_s-W-fault", plane(c), obs, c);
                 vio("C17", g_fence.is_write ? "destination-sized-from-iswfc-is-overrun" : "destination-sized-from-iswfc-does-not-suffice", c >= 0x1f80 && c <= 0x1ff4 ? "greek-iota-subscript-block" : plane(c), obs, c); continue; }
             if (rc == ESNOSPC) { snprintf(obs, sizeof obs, "wcsfc_s(U+%lX) reports no space for a destination of iswfc()+1 = %zu elements", c, need); vio("C17", "destination-sized-from-iswfc-does-not-suffice", plane(c), obs, c); }
-            else if (rc == EOK && l != (size_t)(a > 0 ? a : 1)) { snprintf(obs, sizeof obs, "wcsfc_s(U+%lX) produced %zu characters, iswfc announces %d", c, l, a); vio("C17", "announced-length-differs-from-emitted", plane(c), obs, c); }
+            else if (rc == EOK && l != (size_t)(a > 0 ? a : 1)) { snprintf(obs, sizeof obs, "wcsfc_s(U+%lX) produced %zu characters, iswfc announces %d (wcsfc_s also decomposes to NFD)", c, l, a); vio("C17", "wcsfc_s-emits-more-than-iswfc-announces", l > (size_t)(a > 0 ? a : 1) ? "nfd-decomposition" : "fewer", obs, c); }
+            else if (rc != EOK) { snprintf(obs, sizeof obs, "wcsfc_s(U+%lX) returns %d for a destination of %zu elements", c, rc, need); vio("C17", "wcsfc_s-rejects-assigned-or-unassigned-scalar", plane(c), obs, c); }
+            if (rc == EOK && (wcsnlen(d2, need) >= need || wcsnlen(d2, need) != l)) { snprintf(obs, sizeof obs, "wcsfc_s(U+%lX) returns EOK, *lenp=%zu, but dest holds %zu characters within %zu", c, l, wcsnlen(d2, need), need); vio("C17", "wcsfc_s-length-or-terminator-wrong", plane(c), obs, c); }
         }
         if ((c & 0xfff) == 0) { char b[40]; snprintf(b, sizeof b, "f;%lx;%d;%d", c >> 12, a, r); distinct_add(hash_str(b)); }
+    }
+}
+
+/* strings of characters with 1-, 2- and 3-character foldings and NFD expansions, every dmax from 1 up: no access outside dest, EOK only with a terminated
+ * result of the reported length, the same text as with an ample destination */
+static void mode_fcstr(void) {
+    static const wchar_t A[] = {L'a', L'Z', 0xDF, 0x390, 0x1F82, 0x100, 0xFB03, 0x3A3, 0x1FB7, 0x1E9E, 0x10400};
+    enum { NA = sizeof A / sizeof A[0] };
+    char obs[300]; int maxlen = g_tier ? 4 : 3; wchar_t ref[64];
+    for (int len = 1; len <= maxlen; len++) {
+        unsigned long total = 1; for (int i = 0; i < len; i++) total *= NA;
+        for (unsigned long code = 0; code < total; code++) {
+            wchar_t src[8]; unsigned long x = code; for (int i = 0; i < len; i++) { src[i] = A[x % NA]; x /= NA; } src[len] = 0;
+            rsize_t rl = 0; errno_t rrc = _wcsfc_s_chk(ref, 64, src, &rl, sizeof ref);
+            if (rrc != EOK) { snprintf(obs, sizeof obs, "wcsfc_s of a %d-character string returns %d with an ample destination", len, rrc); vio("C17", "wcsfc_s-string-rejected", "ample", obs, src[0]); continue; }
+            for (size_t dmax = 1; dmax <= rl + 6; dmax++) {
+                wchar_t *d = place_end(0, dmax * sizeof(wchar_t)); for (size_t k = 0; k < dmax; k++) d[k] = 0x7878;
+                wchar_t *s = place_end(1, (len + 1) * sizeof(wchar_t)); memcpy(s, src, (len + 1) * sizeof(wchar_t));
+                rsize_t l = 99; errno_t rc = -999; probes_reset();
+                FENCED(rc = _wcsfc_s_chk(d, dmax, s, &l, dmax * sizeof(wchar_t)));
+                n_cases++;
+                const char *fit = dmax <= rl ? "too-small" : dmax < rl + 5 ? "fits-with-less-than-4-spare" : "fits-with-spare";
+                if (g_fence.faulted) { n_faults++; snprintf(obs, sizeof obs, "wcsfc_s(dmax=%zu) on a %d-character string whose folding has %zu characters: %s fault at dest%+ld", dmax, len, (size_t)rl, g_fence.is_write ? "WRITE" : "READ", (long)(g_fence.addr - (uintptr_t)d));
+                    vio("C17", g_fence.is_write ? "wcsfc_s-string-overruns-dest" : "wcsfc_s-string-reads-outside", fit, obs, src[0]); continue; }
+                if (rc == EOK) {
+                    size_t got = wcsnlen(d, dmax);
+                    if (got >= dmax) { snprintf(obs, sizeof obs, "wcsfc_s(dmax=%zu) returns EOK with an unterminated dest", dmax); vio("C17", "wcsfc_s-string-unterminated", fit, obs, src[0]); }
+                    else if (got != rl || wmemcmp(d, ref, rl)) { snprintf(obs, sizeof obs, "wcsfc_s(dmax=%zu) returns EOK with a different text (%zu characters) than with an ample dest (%zu)", dmax, got, (size_t)rl); vio("C17", "wcsfc_s-string-result-depends-on-dmax", fit, obs, src[0]); }
+                    else if (l != rl) { snprintf(obs, sizeof obs, "wcsfc_s(dmax=%zu) stores %zu characters but reports *lenp=%zu", dmax, got, (size_t)l); vio("C17", "wcsfc_s-string-length-wrong", fit, obs, src[0]); }
+                } else if (rc == ESNOSPC) {
+                    if (dmax >= rl + 5) { snprintf(obs, sizeof obs, "wcsfc_s(dmax=%zu) reports no space although the folding has %zu characters", dmax, (size_t)rl); vio("C17", "wcsfc_s-string-no-space-with-4-spare", fit, obs, src[0]); }
+                    if (g_h.count != 1) { snprintf(obs, sizeof obs, "wcsfc_s ESNOSPC with %d handler calls", (int)g_h.count); vio("C05", "wcsfc_s-handler-count", fit, obs, src[0]); }
+                } else { snprintf(obs, sizeof obs, "wcsfc_s(dmax=%zu) returns %d", dmax, rc); vio("C17", "wcsfc_s-string-unexpected-code", fit, obs, src[0]); }
+                { char b[60]; snprintf(b, sizeof b, "s;%d;%s;%d;%zu", len, fit, rc, (size_t)rl); distinct_add(hash_str(b)); }
+            }
+        }
     }
 }
 
@@ -72,6 +110,15 @@ static void mode_norm(void) {
                     if (rc2 != EOK || l2 != l || wmemcmp(out, out2, l)) printf(" !IDEM"); } }
             printf("\n");
         }
+        /* full case folding of the same string with an ample destination (mode 2); the reference is NFD(str.casefold()) */
+        { size_t dmax = 4 * n + 40; if (dmax > 1000) dmax = 1000;
+          wchar_t *dest = place_end(0, dmax * sizeof(wchar_t)); for (size_t i = 0; i < dmax; i++) dest[i] = 0x7878;
+          wchar_t *s = place_end(1, (n + 1) * sizeof(wchar_t)); memcpy(s, src, (n + 1) * sizeof(wchar_t));
+          rsize_t len = 0; errno_t rc = -999;
+          FENCED(rc = _wcsfc_s_chk(dest, dmax, s, &len, dmax * sizeof(wchar_t)));
+          n_cases++;
+          if (g_fence.faulted) printf("%ld 2 1 FAULT%c %ld\n", id, g_fence.is_write ? 'W' : 'R', (long)(g_fence.addr - (uintptr_t)dest));
+          else { printf("%ld 2 1 %d %zu", id, rc, (size_t)len); if (rc == EOK) { size_t l = wcsnlen(dest, dmax); for (size_t i = 0; i < l; i++) printf(" %x", (unsigned)dest[i]); } printf("\n"); } }
     }
 }
 int main(int argc, char **argv) {
@@ -87,8 +134,8 @@ int main(int argc, char **argv) {
     }
     arena_init(); fence_init(); probes_install();
     if (!strcmp(g_mode, "norm")) { mode_norm(); printf("END %llu\n", n_cases); return 0; }
-    mode_fold();
-    emit_counter("fold_cases", n_cases); emit_counter("fold_faults", n_faults);
+    if (!strcmp(g_mode, "fcstr")) mode_fcstr(); else mode_fold();
+    emit_counter(!strcmp(g_mode, "fcstr") ? "fold_string_cases" : "fold_cases", n_cases); emit_counter("fold_faults", n_faults);
     distinct_emit();
     fprintf(g_out, "{\"t\":\"end\"}\n"); fflush(g_out);
     return 0;
